@@ -91,7 +91,7 @@ CHECKS.update({
         technique=T_B),
     "C19": dict(cat="exploration", ref="DESIGN.md §4 C19", note=B_NOTE,
         text="Representation invariant wf(module) and undo postconditions evaluated after every accepted operation of all histories of depth <= 2 and a stride of depth 3 over a 31-letter alphabet on a cell and a network; "
-             "for sampled reached states z3 proves (all values) that the real to_jax/get_all_*/step chain hands the solver exactly the membrane terms of the model displayed by the tables.",
+             "for sampled reached states z3 proves (all values) that the real to_jax/get_all_*/step chain hands the solver exactly the membrane terms of the model displayed by the tables (known finding F25: insertion of a channel overwrites a set() value of a parameter it shares with a present channel).",
         technique=T_B + "; per reached state: symbolic execution of the real step + z3"),
     "C20": dict(cat="exploration", ref="DESIGN.md §4 C20", note=B_NOTE,
         text="Builder contracts (exactly the requested pairs, pre site = first compartment, post site in the intended cell, never raises) evaluated for populations over a 4-cell network with cells of different size, all boolean matrices up to a bound, and EVERY outcome of the binomial draw of sparse_connect (stubbed); "
